@@ -117,7 +117,8 @@ def make_monitored_daemon_class(base=None):
             super().__init__(*a, **k)
 
         def annotations(self):
-            return dict(self.reply_annotations) if self.reply_annotations else {}
+            # (the application's own long-lived dict is handed out, not a copy: that is what a subclass returning a member does)
+            return self.reply_annotations if self.reply_annotations else {}
 
         def validateHandshake(self, conn, data):
             with MonitoredDaemon._serial_lock:
